@@ -172,7 +172,10 @@ def gen(tier, rng):
                 term.put("\x05in? \x06")
                 term.col = 0
                 inputs.append("5")
-            elif r < 0.97:
+            elif r < 0.955:
+                stmt = "K$=INKEY$"              # a key is delivered through the entry point of typed lines, echoes nothing
+                inputs.append(rng.choice(["k", "", "Q"]))      # and leaves the cursor where it is
+            elif r < 0.98:
                 stmt = rng.choice(["CLEAR", "CLEAR", "RESTORE", "DEFINT Q"])       # none of these moves the cursor
             else:
                 stmt = "Q=Q+1"
